@@ -15,6 +15,13 @@ PROPS = {
         ],
         "assumptions": ["refinement theorem proved for the Secret/ConfigMap driver model; the memory driver model is tied by correspondence (all three real drivers are compared step by step with their models and with the spec map) and by the key-parse guard/counterexample theorems"],
     },
+    "C18": {
+        "corr": [("index", {"quick": 1500, "thorough": 30000})],
+        "trusted_base": [
+            "modelled, not verified: YAML decoding of the index; Masterminds semver parsing (NewVersion, with its coercions) and constraint grammar/check (verdicts are handed to the model per entry; precedence is re-implemented in Lean and compared on all pairs of the version pool); chart.Metadata.Validate (validity of an entry is determined by loading it alone); sort.Sort (unstable: entries of equal precedence are excluded from the generated files); Resolver.Resolve's surrounding I/O (only its selection loop is modelled)",
+        ],
+        "assumptions": ["no two entries of one chart have equal precedence"],
+    },
     "C11": {
         "corr": [("deps", {"quick": 2000, "thorough": 40000}), ("values", {"quick": 900, "thorough": 15000})],
         "trusted_base": [
